@@ -60,6 +60,11 @@ type SeedRecSlice struct {
 	Kids []SeedRecSlice
 }
 
+type seedFolderHolder struct {
+	A int
+	F gotype.Folder
+}
+
 // maps keyed by a defined string type
 type SeedKey string
 type SeedKeyed struct {
@@ -338,6 +343,13 @@ func seeds() []seed {
 		{"SeedZeroV", []interface{}{SeedZeroV{}, SeedZeroV{1}}, nil, nil},
 		{"SeedRec", []interface{}{SeedRec{}, *rec(3), rec(2)}, nil, nil},
 		{"SeedRecSlice", []interface{}{SeedRecSlice{}, SeedRecSlice{Kids: []SeedRecSlice{{}, {Kids: []SeedRecSlice{{}}}}}}, nil, nil},
+		// fields, elements and map values whose STATIC type is an interface containing Fold: nil, a value, a nil pointer, a pointer
+		{"SeedFolderIfc", []interface{}{seedFolderHolder{A: 1}, seedFolderHolder{A: 1, F: SeedFolderV{2}}, seedFolderHolder{A: 1, F: (*SeedFolderV)(nil)}, seedFolderHolder{A: 1, F: &SeedFolderP{3}},
+			[]gotype.Folder{nil, SeedFolderV{1}, (*SeedFolderP)(nil)}, map[string]gotype.Folder{"k": nil}, map[string]gotype.Folder{"v": SeedFolderV{4}}, &seedFolderHolder{A: 2},
+			struct {
+				F gotype.Folder `struct:"f,omitempty"`
+				Z int
+			}{nil, 1}}, nil, nil},
 		{"SeedNamedKeys", []interface{}{map[SeedKey]int{"a": 1}, map[SeedKey]seedEmbedded{"a": {1}}, map[SeedKey]*int{"n": nil}, map[SeedKey]*seedEmbedded{"p": {2}}, map[SeedKey][]string{"l": {"x"}},
 			map[SeedKey]map[SeedKey]bool{"o": {"i": true}}, map[SeedKey]interface{}{"i": 1}, SeedKeyed{M: map[SeedKey]seedEmbedded{"k": {3}}, P: map[SeedKey]*int{"z": nil}}, SeedKeyed{}, []map[SeedKey]seedEmbedded{{"e": {4}}}}, nil, nil},
 		{"SeedRecursiveContainers", []interface{}{SeedTreeMap{"a": {"b": {}}, "c": nil}, SeedTreeMap(nil), SeedTreeSlice{{}, {{}, nil}}, SeedTreeSlice(nil), SeedPtrList{&SeedPtrList{nil}, nil},
